@@ -1151,6 +1151,44 @@ func GenC06(rng *rand.Rand, thorough bool, emit func(*Sx)) {
 				emit(RunConv(f.caseOf("C06", segStream(rng, f.out, f.cuts, li%2, rawEOF))))
 			}
 		}
+		// ---- the octets of a REFUSED chunk (no recipient yet / bad LAST keyword) do not count against the limit ----
+		for _, why := range []string{"norcpt", "badlast", "norcpt-twice"} {
+			for _, lmtp := range []bool{false, true} {
+				for _, r := range []int{1, N, 3 * N} {
+					cfg := DefaultCfg()
+					cfg.MaxBytes = int64(N)
+					cfg.LMTP = lmtp
+					f := newF(cfg)
+					f.hello()
+					f.cmd("MAIL FROM:<s@ok>", 250)
+					junk := strings.Repeat("j", r)
+					switch why {
+					case "norcpt", "norcpt-twice":
+						f.cmd(fmt.Sprintf("BDAT %d", r), 502)
+						f.cut()
+						f.raw(junk)
+						if why == "norcpt-twice" {
+							f.cmd(fmt.Sprintf("BDAT %d LAST", r), 502)
+							f.cut()
+							f.raw(junk)
+						}
+						f.cmd("RCPT TO:<r@ok>", 250)
+					case "badlast":
+						f.cmd("RCPT TO:<r@ok>", 250)
+						f.cmd(fmt.Sprintf("BDAT %d FIRST", r), 501)
+						f.cut()
+						f.raw(junk)
+					}
+					f.script.Data = []DataPlan{DefaultPlan()}
+					f.cmd(fmt.Sprintf("BDAT %d LAST", N), 250)
+					f.cut()
+					f.raw(strings.Repeat("m", N))
+					f.add(L(A("expect-del"), XS(strings.Repeat("m", N))))
+					f.cmd("QUIT", 221)
+					emit(RunConv(f.caseOf("C06", segStream(rng, f.out, f.cuts, li%2, rawEOF))))
+				}
+			}
+		}
 		// ---- SIZE= ----
 		for _, v := range []string{fmt.Sprint(N - 1), fmt.Sprint(N), fmt.Sprint(N + 1), "4294967296", "9223372036854775807", "9223372036854775808", "99999999999999999999999"} {
 			cfg := DefaultCfg()
@@ -1275,9 +1313,14 @@ func GenC07(rng *rand.Rand, thorough bool, emit func(*Sx)) {
 			}
 			// --- the client abandons a chunked transfer (also: after a transaction that was completed
 			// with BDAT ... LAST or with DATA on the same connection) ---
-			for _, prior := range []string{"", "bdat", "data", "bdat-bdat"} {
+			for _, prior := range []string{"", "bdat", "data", "bdat-bdat", "atlimit"} {
 				for ai, ab := range []string{"RSET", "QUIT", "EHLO again", "LHLO again", "NOOP", ""} {
 					for ti, term := range terms {
+						cfg := cfg
+						if prior == "atlimit" {
+							// the chunks received so far add up to exactly MaxMessageBytes
+							cfg.MaxBytes = 5
+						}
 						if prior == "" && ti > 0 {
 							continue
 						}
